@@ -31,7 +31,16 @@ ItemsOf = namedtuple("ItemsOf", "of")
 ListOf = namedtuple("ListOf", "of")
 B = namedtuple("B", "frags")
 Key = namedtuple("Key", "src prefix")
-ListV = namedtuple("ListV", "items loop")  # items: tuple (display); loop: frozenset of appended patterns
+class ListV(namedtuple("ListV", "items loop tail")):
+    """items: the display; tail: ((site, value), ...) appended in straight-line code, in order; loop: patterns appended
+    by a site that executed more than once (a loop), order and count unknown."""
+
+    def __new__(cls, items, loop=frozenset(), tail=()):
+        return super().__new__(cls, tuple(items), frozenset(loop), tuple(tail))
+
+    @property
+    def seq(self):
+        return self.items + tuple(v for _, v in self.tail)
 CompList = namedtuple("CompList", "elems src")
 DictV = namedtuple("DictV", "items")
 SerData = namedtuple("SerData", "of")
@@ -98,7 +107,7 @@ class FragDomain(Domain):
         if isinstance(v, Key):
             return None
         if isinstance(v, ListV):
-            if v.items:
+            if v.seq:
                 return True
             if not v.loop:
                 return False
@@ -194,7 +203,7 @@ class FragDomain(Domain):
 
     def for_next(self, node, itval, state):
         if isinstance(itval, ListV):
-            vals = list(itval.items) + list(itval.loop)
+            vals = list(itval.seq) + list(itval.loop)
             return [(v, state) for v in dict.fromkeys(vals)]
         if isinstance(itval, CompList):
             return [(v, state) for v in itval.elems]
@@ -222,14 +231,14 @@ class FragDomain(Domain):
             if byteslike(l) or byteslike(r):
                 return cat(l, r)
             if isinstance(l, ListV) and isinstance(r, ListV):
-                return ListV(l.items + r.items, l.loop | r.loop)
+                return ListV(l.seq + r.seq, l.loop | r.loop)
         if isinstance(node.op, ast.Mod) and isinstance(l, Const) and isinstance(l.v, bytes):
             return B((("taint", r),))
         return super().binop(node, l, r, state)
 
     def subscript_load(self, objval, idxval, node, state):
-        if isinstance(objval, ListV) and not objval.loop and isinstance(idxval, Const) and isinstance(idxval.v, int) and -len(objval.items) <= idxval.v < len(objval.items):
-            return objval.items[idxval.v], False
+        if isinstance(objval, ListV) and not objval.loop and isinstance(idxval, Const) and isinstance(idxval.v, int) and -len(objval.seq) <= idxval.v < len(objval.seq):
+            return objval.seq[idxval.v], False
         return super().subscript_load(objval, idxval, node, state)
 
     # ---- calls -------------------------------------------------------------------
@@ -285,12 +294,12 @@ class FragDomain(Domain):
                 if isinstance(lst, ListV):
                     if not lst.loop:
                         out = Const(b"")
-                        for i, it in enumerate(lst.items):
+                        for i, it in enumerate(lst.seq):
                             if i:
                                 out = cat(out, sep)
                             out = cat(out, it)
                         return ok(out if isinstance(out, B) else B(to_frags(out)))
-                    return ok(B((("rep", frozenset(list(lst.loop) + list(lst.items)), sep),)))
+                    return ok(B((("rep", frozenset(list(lst.loop) + list(lst.seq)), sep),)))
                 if isinstance(lst, CompList):
                     return ok(B((("rep", lst.elems, sep),)))
                 return ok(B((("taint", lst),)))
@@ -300,7 +309,14 @@ class FragDomain(Domain):
                 nm = node.func.value.id
                 cur = state.get(nm, TOP)
                 if isinstance(cur, ListV) and args and _hashable(args[0]):
-                    return [("ok", NONE, state.set(nm, ListV(cur.items, cur.loop | {args[0]})))]
+                    v, site = args[0], (node.lineno, node.col_offset)
+                    if v in cur.loop:
+                        return ok(NONE)
+                    if cur.loop or any(s_ == site for s_, _ in cur.tail):
+                        # this site executes again: a loop; order and number of its elements are not tracked
+                        moved = {x for s_, x in cur.tail if s_ == site} | {v}
+                        return [("ok", NONE, state.set(nm, ListV(cur.items, cur.loop | moved, tuple((s_, x) for s_, x in cur.tail if s_ != site))))]
+                    return [("ok", NONE, state.set(nm, ListV(cur.items, cur.loop, cur.tail + ((site, v),))))]
                 return ok(NONE)
             if a in ("get", "startswith", "partition", "split", "find", "isdigit", "keys", "values", "copy", "replace", "decode", "splitlines"):
                 return ok(TOP)
